@@ -304,4 +304,26 @@ Boot(P, C, image) ==
    stdin |-> P.stdin, rep |-> FALSE, after |-> "invoke", why |-> "", outfree |-> FALSE,
    svc |-> <<0, 0>>, charout |-> FALSE, freemem |-> {}, prompted |-> FALSE]
 
+(***************************************************************************)
+(* The driver as a transition relation                                     *)
+(***************************************************************************)
+ApplyRes(m, r) == [m EXCEPT !.regs = r.regs, !.flags = r.flags, !.mem = r.writes @@ m.mem, !.stack = r.stack]
+
+\* the set of successor driver records of dd for program PP (CC compiled, LL loaded)
+Successors(PP, CC, LL, dd) ==
+  CASE dd.phase = "fetch" ->
+         IF PromptDue(PP, CC, dd)
+         THEN LET e == CC.code[dd.idx + 1]
+                  withPrompt == [Emit(dd, "stepbanner", Banner(e, FlagSet(dd.m.flags, TF))) EXCEPT !.phase = "prompt", !.after = "invoke"]
+              IN IF dd.rep THEN {withPrompt, [dd EXCEPT !.phase = "invoke"]} ELSE {withPrompt}
+         ELSE {[dd EXCEPT !.phase = "invoke"]}
+    [] dd.phase = "prompt" ->
+         LET c == IF dd.stdin = << >> THEN [cls |-> "eof"] ELSE dd.stdin[1]
+         IN {[PromptCmd(dd, c) EXCEPT !.stdin = IF dd.stdin = << >> THEN << >> ELSE Tail(dd.stdin)]}
+    [] dd.phase = "invoke" ->
+         LET ins == InsAt(CC, LL.labels, dd.idx) IN
+         UNION {{Dispatch(CC, [dd EXCEPT !.phase = "fetch"], ApplyRes(dd.m, r), o) : o \in r.outs} : r \in ExecAlts(dd.m, ins, dd.idx)}
+    [] dd.phase = "service" -> {RunService(dd)}
+    [] OTHER -> {}
+
 =============================================================================
